@@ -99,6 +99,7 @@ func Explore(c *Ctx, r *Result, part string, sc *Scenario, o ExploreOpts) {
 	}
 	stack := []item{{nil, 0}}
 	var execs, points int64
+	nviol := 0
 	maxPts := 0
 	leafIdx := 0
 	bname := fmt.Sprintf("%s.preemption_bound", sc.Name)
@@ -157,6 +158,11 @@ func Explore(c *Ctx, r *Result, part string, sc *Scenario, o ExploreOpts) {
 				}
 				r.Violate(part, x.class, fmt.Sprintf("scenario %s, schedule %v (preemptions=%d): %s", sc.Name, full, preemptions(x.points, len(x.points)), x.violation),
 					schedCase{Scenario: sc.Name, Choices: full, Bound: o.Bound})
+				if nviol++; nviol >= 64 {
+					// enough counterexamples for this scenario: the rest of its schedule tree adds none of a new kind
+					r.NotExhaustive = append(r.NotExhaustive, fmt.Sprintf("%s/%s: stopped after %d violating executions", part, sc.Name, nviol))
+					break
+				}
 			}
 		}
 		// expand
